@@ -35,7 +35,7 @@
 (***************************************************************************)
 EXTENDS ParserSM, SuffixDefs, Json
 
-CONSTANTS Alpha, MaxN, Blks, MinMs, Wnds, Variant, EmitOps, AllowNTL, TwoWrites,
+CONSTANTS Alpha, MaxN, Blks, MinMs, Wnds, Variant, EmitOps, EmitEvery, AllowNTL, TwoWrites,
           AllowNil   \* TRUE: Parse(nil) is explored as well (C14); the C12 rules then stop applying
 
 VARIABLES t,      \* the whole text (arrives in one or two writes)
@@ -184,7 +184,9 @@ Hot == LET n == Min(avail - w, cf.Blk) IN
        \/ sorted > 0 /\ w + n <= sorted /\ n > 0 /\ FutureWinsAt(w, w + n, bits)
        \/ sorted > 0 /\ n > 0 /\ w + n > sorted /\ bits # {}     \* next Parse sorts again over a used search set
 
+HotEvery == IF EmitEvery = 1 THEN 1 ELSE (EmitEvery \div 10) + 1
+
 Emit == EmitOps =>
-          /\ PrintT(<<"VERIF_OPS", ToJson(ops')>>)
-          /\ (Hot' => PrintT(<<"VERIF_HOT", ToJson(Append(ops', [op |-> "parse", flags |-> 0]))>>))
+          /\ ((EmitEvery = 1 \/ RandomElement(1..EmitEvery) = 1) => PrintT(<<"VERIF_OPS", ToJson(ops')>>))
+          /\ ((Hot' /\ (EmitEvery = 1 \/ RandomElement(1..HotEvery) = 1)) => PrintT(<<"VERIF_HOT", ToJson(Append(ops', [op |-> "parse", flags |-> 0]))>>))
 =============================================================================
